@@ -77,7 +77,7 @@ package ice
 // Host candidates on a UDP mux: every connection reference taken from the mux is
 // released (closed once) or handed to a started candidate before the next one is taken.
 //@ func (*Agent).gatherCandidatesLocalUDPMux
-//@   props C09
+//@   props C09 C18
 //@   opt nosafety
 //@   ghostvar outstanding int = 0
 //@   loop 1 invariant no-reference-outstanding: outstanding == 0
@@ -89,6 +89,12 @@ package ice
 //@   site call addCandidate#1 assert hands-over-the-reference-just-taken: arg3.payload == conn.payload && outstanding == 1 && conn.gClosed == 0
 //@   site call addCandidate#1 ghost after outstanding := outstanding - ite(result == nil, 1, 0)
 //@   ensures every-mux-reference-is-closed-or-owned: outstanding == 0
+//@   ghostvar familyChecked bool = false
+//@   ghostvar familyEnabled bool = false
+//@   site call AddrFromSlice#1 ghost familyChecked := result1
+//@   site call AddrFromSlice#1 ghost familyEnabled := false
+//@   site call Contains#1 ghost familyEnabled := result
+//@   site call GetConn#1 assert C18 mux-host-candidates-only-for-enabled-address-families: familyChecked ==> familyEnabled
 
 // Mapped server-reflexive candidates (address rewrite): one socket per external
 // address; each is closed once or handed to a started candidate before the next is
